@@ -8,24 +8,24 @@ open Rdest Rdest.Wire Rdest.Gen
 /-- Fields that only `handle_frame`'s first lines, the timer and `terminate` touch. -/
 def SameCore (s s' : HState) : Prop :=
   s'.keepAlive = s.keepAlive ∧ s'.alive = s.alive ∧ s'.infoHash = s.infoHash ∧ s'.ownId = s.ownId ∧
-  s'.piecesNum = s.piecesNum
+  s'.piecesNum = s.piecesNum ∧ s'.hsDone = s.hsDone ∧ s'.peerId = s.peerId
 
-theorem sameCore_refl (s : HState) : SameCore s s := ⟨rfl, rfl, rfl, rfl, rfl⟩
+theorem sameCore_refl (s : HState) : SameCore s s := ⟨rfl, rfl, rfl, rfl, rfl, rfl, rfl⟩
 
 theorem sendRequest_core (s : HState) : SameCore s (sendRequest s).1 := by
   unfold sendRequest
   split
-  · split <;> exact ⟨rfl, rfl, rfl, rfl, rfl⟩
+  · split <;> exact ⟨rfl, rfl, rfl, rfl, rfl, rfl, rfl⟩
   · exact sameCore_refl s
 
 theorem sameCore_trans {a b c : HState} (h1 : SameCore a b) (h2 : SameCore b c) : SameCore a c := by
-  obtain ⟨a1, a2, a3, a4, a5⟩ := h1
-  obtain ⟨b1, b2, b3, b4, b5⟩ := h2
-  exact ⟨b1.trans a1, b2.trans a2, b3.trans a3, b4.trans a4, b5.trans a5⟩
+  obtain ⟨a1, a2, a3, a4, a5, a6, a7⟩ := h1
+  obtain ⟨b1, b2, b3, b4, b5, b6, b7⟩ := h2
+  exact ⟨b1.trans a1, b2.trans a2, b3.trans a3, b4.trans a4, b5.trans a5, b6.trans a6, b7.trans a7⟩
 
 theorem newPieceRequest_core (s : HState) (i : Bool) (rd : ReqData) : SameCore s (newPieceRequest s i rd).1 := by
   unfold newPieceRequest
-  have h0 : SameCore s { s with pieceRx := some (newRx rd) } := ⟨rfl, rfl, rfl, rfl, rfl⟩
+  have h0 : SameCore s { s with pieceRx := some (newRx rd) } := ⟨rfl, rfl, rfl, rfl, rfl, rfl, rfl⟩
   exact sameCore_trans h0 (sameCore_trans (sendRequest_core _) (sendRequest_core _))
 
 theorem pieceFinishReply_core (s : HState) (rep : Rep) (s' : HState) (o : List HOut) (b : Bool)
@@ -47,10 +47,10 @@ open Rdest Rdest.Wire Rdest.Gen
     identifies the result with a record update / a helper's result. -/
 macro "core_leaf" h:ident : tactic =>
   `(tactic| (cases $h:ident <;> first
-      | exact ⟨rfl, rfl, rfl, rfl, rfl⟩
+      | exact ⟨rfl, rfl, rfl, rfl, rfl, rfl, rfl⟩
       | exact newPieceRequest_core _ _ _
-      | exact sameCore_trans (b := _) ⟨rfl, rfl, rfl, rfl, rfl⟩ (newPieceRequest_core _ _ _)
-      | exact sameCore_trans (b := _) ⟨rfl, rfl, rfl, rfl, rfl⟩ (sendRequest_core _)))
+      | exact sameCore_trans (b := _) ⟨rfl, rfl, rfl, rfl, rfl, rfl, rfl⟩ (newPieceRequest_core _ _ _)
+      | exact sameCore_trans (b := _) ⟨rfl, rfl, rfl, rfl, rfl, rfl, rfl⟩ (sendRequest_core _)))
 
 theorem consultRequest_core (disk : Bytes → Option Bytes) (s : HState) (idx : Nat) (rep : Rep)
     (s1 : HState) (o1 : List HOut) (b1 : Bool) (h : consultRequest disk s idx rep = some (s1, o1, b1)) :
@@ -62,12 +62,10 @@ theorem consultRequest_core (disk : Bytes → Option Bytes) (s : HState) (idx : 
 
 /-- Every per-message handler leaves the core fields alone. -/
 theorem dispatch_core (sha1 : Bytes → Bytes) (disk : Bytes → Option Bytes) (s : HState) (m : Msg) (rep : Rep)
+    (hnh : isHandshake m = false)
     (s' : HState) (o : List HOut) (c : Cont) (h : dispatch sha1 disk s m rep = some (s', o, c)) : SameCore s s' := by
   cases m with
-  | handshake ih pid =>
-    simp only [dispatch, onHandshake] at h
-    repeat' split at h
-    all_goals core_leaf h
+  | handshake ih pid => simp [isHandshake] at hnh
   | keepAlive => simp only [dispatch] at h; core_leaf h
   | choke => simp only [dispatch] at h; core_leaf h
   | unchoke =>
@@ -105,13 +103,50 @@ theorem dispatch_core (sha1 : Bytes → Bytes) (disk : Bytes → Option Bytes) (
           · split at h
             · rename_i s2 o2 hpf
               cases h
-              exact sameCore_trans (b := { s with pieceRx := none }) ⟨rfl, rfl, rfl, rfl, rfl⟩ (pieceFinishReply_core _ _ _ _ _ hpf)
+              exact sameCore_trans (b := { s with pieceRx := none }) ⟨rfl, rfl, rfl, rfl, rfl, rfl, rfl⟩ (pieceFinishReply_core _ _ _ _ _ hpf)
             · rename_i s2 o2 hpf
               cases h
-              exact sameCore_trans (b := { s with pieceRx := none }) ⟨rfl, rfl, rfl, rfl, rfl⟩ (pieceFinishReply_core _ _ _ _ _ hpf)
+              exact sameCore_trans (b := { s with pieceRx := none }) ⟨rfl, rfl, rfl, rfl, rfl, rfl, rfl⟩ (pieceFinishReply_core _ _ _ _ _ hpf)
             · cases h
         · core_leaf h
   | cancel i b l => simp only [dispatch] at h; core_leaf h
+
+/-- `handle_handshake`: what it can do. -/
+theorem onHandshake_cases (s : HState) (ih pid : Bytes) (rep : Rep) (s' : HState) (o : List HOut) (c : Cont)
+    (h : onHandshake s ih pid rep = some (s', o, c)) :
+    -- rejected: nothing is written, the task ends with an error
+    ((ih ≠ s.infoHash ∨ (∃ e, s.peerId = some e ∧ pid ≠ e)) ∧ s' = s ∧ o = [] ∧ c = .endError) ∨
+    -- accepted on a connection whose peer id was not known: our handshake, Init, the bitfield
+    (ih = s.infoHash ∧ s.peerId = none ∧ s' = { s with peerId := some pid, hsDone := true } ∧ c = .go ∧
+      ∃ bs, o = [.write (.handshake s.infoHash s.ownId), .cmd (.init pid), .write (.bitfield bs)]) ∨
+    -- accepted where the id was known (and equal): nothing is written
+    (ih = s.infoHash ∧ s.peerId = some pid ∧ s' = { s with peerId := some pid, hsDone := true } ∧ c = .go ∧ o = []) := by
+  unfold onHandshake at h
+  by_cases h1 : ih ≠ s.infoHash
+  · rw [if_pos h1] at h; cases h; exact Or.inl ⟨Or.inl h1, rfl, rfl, rfl⟩
+  · rw [if_neg h1] at h
+    have h1' : ih = s.infoHash := by simpa using h1
+    cases hp : s.peerId with
+    | none =>
+      rw [hp] at h
+      simp only [Bool.false_eq_true, if_false, Option.isNone_none, if_true] at h
+      cases hi : initHandshake { s with peerId := some pid, hsDone := true } pid rep with
+      | none => rw [hi] at h; cases h
+      | some oo =>
+        rw [hi] at h; cases h
+        unfold initHandshake at hi
+        cases rep with
+        | bitfield bs => simp only [Option.some.injEq] at hi; exact Or.inr (Or.inl ⟨h1', rfl, rfl, rfl, bs, hi.symm⟩)
+        | _ => cases hi
+    | some e =>
+      rw [hp] at h
+      by_cases h2 : pid ≠ e
+      · have hd : decide (pid ≠ e) = true := decide_eq_true h2
+        simp only [hd, if_true] at h; cases h; exact Or.inl ⟨Or.inr ⟨e, rfl, h2⟩, rfl, rfl, rfl⟩
+      · have h2' : pid = e := by simpa using h2
+        have hd : decide (pid ≠ e) = false := decide_eq_false h2
+        simp only [hd, Bool.false_eq_true, if_false, Option.isNone_some] at h
+        cases h; subst h2'; exact Or.inr (Or.inr ⟨h1', rfl, rfl, rfl, rfl⟩)
 
 /-- `handle_frame` touches the keep-alive counter only in its first lines, and nothing else of the core. -/
 theorem handleFrame_core (sha1 : Bytes → Bytes) (disk : Bytes → Option Bytes) (s : HState) (m : Msg) (rep : Rep)
@@ -122,9 +157,17 @@ theorem handleFrame_core (sha1 : Bytes → Bytes) (disk : Bytes → Option Bytes
   simp only at h
   split at h
   · cases h; exact ⟨rfl, rfl, rfl, rfl, rfl⟩
-  · obtain ⟨h1, h2, h3, h4, h5⟩ := dispatch_core sha1 disk _ m rep s' o c h
-    exact ⟨h1, h2, h3, h4, h5⟩
-
+  · cases hm : isHandshake m with
+    | false =>
+      obtain ⟨h1, h2, h3, h4, h5, _⟩ := dispatch_core sha1 disk _ m rep hm s' o c h
+      exact ⟨h1, h2, h3, h4, h5⟩
+    | true =>
+      cases m with
+      | handshake ih pid =>
+        simp only [dispatch] at h
+        rcases onHandshake_cases _ ih pid rep s' o c h with ⟨_, rfl, _, _⟩ | ⟨_, _, rfl, _, _⟩ | ⟨_, _, rfl, _, _⟩ <;>
+          exact ⟨rfl, rfl, rfl, rfl, rfl⟩
+      | _ => simp [isHandshake] at hm
 
 /-- For every input other than timer ticks: the step either continues a live task (`ended = none`) with the
     keep-alive counter reset exactly by non-keep-alive frames, or ends it. -/
@@ -153,7 +196,7 @@ theorem hstep_bcHave_core (sha1 : Bytes → Bytes) (d : Bytes → Option Bytes) 
       have hc := hr s1 o1 rfl
       simp only at hm
       split at hm
-      · cases hm; exact ⟨rfl, sameCore_trans hc ⟨rfl, rfl, rfl, rfl, rfl⟩⟩
+      · cases hm; exact ⟨rfl, sameCore_trans hc ⟨rfl, rfl, rfl, rfl, rfl, rfl, rfl⟩⟩
       · cases hm; exact ⟨rfl, hc⟩
   cases hrx : s.pieceRx with
   | none => rw [hrx] at h; exact inner (some (s, [])) (fun s1 o1 e => by cases e; exact sameCore_refl s) h
@@ -169,7 +212,7 @@ theorem hstep_bcHave_core (sha1 : Bytes → Bytes) (d : Bytes → Option Bytes) 
         rw [hpf] at h
         exact inner (some (s2, _)) (fun s1 o1 e => by
           cases e
-          exact sameCore_trans (b := { s with pieceRx := none }) ⟨rfl, rfl, rfl, rfl, rfl⟩
+          exact sameCore_trans (b := { s with pieceRx := none }) ⟨rfl, rfl, rfl, rfl, rfl, rfl, rfl⟩
             (pieceFinishReply_core _ _ _ _ _ hpf)) h
     · simp only [hi, if_false] at h
       exact inner (some (s, [])) (fun s1 o1 e => by cases e; exact sameCore_refl s) h
